@@ -73,6 +73,8 @@ func init() {
 				Old: "\ta.hash = cache.ActionID(h.Sum())\n", New: "\ta.hash = cache.ActionID(h.Sum())\n\tif os.Getenv(\"STATICCHECK_FACTS_ONLY\") != \"\" {\n\t\ta.factsOnly = true\n\t}\n"},
 			{Name: "dep-facts-keyed-by-package-hash", File: "lintcmd/runner/runner.go", Rule: "R4.1", KeyPart: "packageAction.vetx",
 				Old: "\t\tfmt.Fprintf(h, \"vetout %q %x\\n\", dep.Package.PkgPath, vetxHash)\n", New: "\t\t_ = vetxHash\n\t\tfmt.Fprintf(h, \"vetout %q %x\\n\", dep.Package.PkgPath, dep.Package.Hash)\n"},
+			{Name: "loader-parses-unhashed-file-list", File: "go/loader/loader.go", Rule: "R4.5", KeyPart: "loadFromSource calls os.Open",
+				Old: "\tfor i, file := range spec.CompiledGoFiles {\n\t\tf, err := os.Open(file)", New: "\tfor i, file := range spec.GoFiles {\n\t\tf, err := os.Open(file)"},
 			{Name: "new-result-only-on-miss", File: "lintcmd/runner/runner.go", Rule: "R4.6", KeyPart: "baseAction.failed",
 				Old: "\t\ta.skipped = result.skipped\n", New: "\t\ta.skipped = result.skipped\n\t\tif len(result.diags) > 10000 {\n\t\t\ta.failed = true\n\t\t}\n"},
 			{Name: "salt-not-set", File: "lintcmd/lint.go", Rule: "R4.7", KeyPart: "SetSalt",
@@ -313,6 +315,8 @@ func runC04(c *Ctx) {
 			switch {
 			case listed && e.class == "exempt":
 				c.CheckTrivial(key, s.pos, true, "exempt: %s", e.reason)
+			case listed && e.class == "hashed":
+				c.Check(key, s.pos, false, "%s must be written into the action key (%s)", k, e.reason)
 			case listed && e.class == "filehash":
 				c.Check(key, s.pos, hashedDo["filehash:"+k], "the content hash (cache.FileHash) of the file named by %s must be written into the key of the action that reads it (%s)", k, e.reason)
 			case listed && strings.HasPrefix(e.class, "covered-by "):
@@ -595,8 +599,12 @@ func runC04(c *Ctx) {
 					c.Check(k+"::result-is-hashed#"+itoa(nth), ci.Pos(), fed, "the value read from the environment here must be written into the cache key computed by this function (%s)", e.reason)
 					continue
 				}
-				if ok && strings.HasPrefix(e.class, "filehash ") {
-					field := strings.TrimPrefix(e.class, "filehash ")
+				if ok && (strings.HasPrefix(e.class, "filehash ") || strings.HasPrefix(e.class, "opens ")) {
+					field := strings.TrimPrefix(strings.TrimPrefix(e.class, "filehash "), "opens ")
+					covered, how := hashedDo["filehash:"+field], "written into the reader's action key as cache.FileHash"
+					if strings.HasPrefix(e.class, "opens ") {
+						covered, how = hashedCH[field], "hashed by computeHash"
+					}
 					fromField := false
 					for y := range BackSlice(ci.Common().Args[0], SliceOpts{}) {
 						var base ssa.Value
@@ -618,7 +626,7 @@ func runC04(c *Ctx) {
 						nth++
 					}
 					seen[k+"#"+itoa(nth)] = true
-					c.Check(k+"::file-content-is-hashed#"+itoa(nth), ci.Pos(), fromField && hashedDo["filehash:"+field], "the file opened here must be the one named by %s (%v), whose content hash (cache.FileHash) is written into the reader's action key (%v): %s", field, fromField, hashedDo["filehash:"+field], e.reason)
+					c.Check(k+"::file-content-is-hashed#"+itoa(nth), ci.Pos(), fromField && covered, "the file opened here must be the one named by %s (%v), whose content is %s (%v): %s", field, fromField, how, covered, e.reason)
 					continue
 				}
 				if seen[k] {
